@@ -55,6 +55,9 @@ func runC07(k *kernel.K) {
 	yieldPark := map[int]bool{} // accept order index -> park
 	accepted := 0
 	martian.VerifYieldHook = func(site string) {
+		if site != "handleLoop" {
+			return // yield points of other seams (R8) are not this world's subject
+		}
 		mu.Lock()
 		i := accepted
 		accepted++
